@@ -68,7 +68,7 @@ theorem round0_partition {info : Info} {batch : List Nat} {rd : Round} {rest : L
     (∀ g ∈ groups rd batch, g.2.Sublist batch ∧ ∀ c ∈ g.2, rd.locate c = .ok g.1) ∧
     (∀ c ∈ batch, ∃ g ∈ groups rd batch, c ∈ g.2 ∧ ∀ g' ∈ groups rd batch, c ∈ g'.2 → g' = g) := by
   rw [sendBatch_valid hne hv] at h
-  obtain ⟨new, hev, _, _, _, _, h5⟩ := loop_events h (fun c hc => hc) (st0_length info batch)
+  obtain ⟨new, hev, _, _, _, _, h5, _⟩ := loop_events h (fun c hc => hc) (st0_length info batch)
   have hev' : R.events = new := by simpa [st0] using hev
   have hany : batch.any (fun c => !locOk rd c) = false := by
     simp only [List.any_eq_false, Bool.not_eq_true', Bool.not_eq_false]
